@@ -426,7 +426,7 @@ func init() {
 			if tier == "thorough" {
 				return 1500
 			}
-			return 200
+			return 400
 		},
 		RunUnit: func(c *explore.Ctx) {
 			if strings.HasPrefix(c.Spec.Unit.Arg, "L") {
